@@ -575,7 +575,7 @@ impl G<'_> {
                         self.o.push_str("string");
                         self.t("(");
                         self.ws0();
-                        let s = *self.r.pick(&["\"\"", "\"abc\"", "\"with \\\"quotes\\\"\"", "\"back\\\\slash\"", "\"a\\nb\"", "\"ä€\"", "\"// not a comment\"", "\"tab\there\""]);
+                        let s = *self.r.pick(&["\"\"", "\"abc\"", "\"with \\\"quotes\\\"\"", "\"back\\\\slash\"", "\"a\\nb\"", "\"ä€\"", "\"// not a comment\"", "\"tab\there\"", "\"\\é\"", "\"x\\€\"", "\"\\\u{1F600}y\\q\""]);
                         self.o.push_str(s);
                         self.t(")");
                     }
